@@ -27,13 +27,13 @@ FUNCTIONS_ENCODED = [
     'yaql.language.factory.YaqlEngine.__call__ + Statement.evaluate (parser.p_value_to_const, p_keyword_constant, '
     'expressions.Constant/KeywordConstant)']
 BOUNDS = {
-    'quick': 'string values symbolic, unrestricted alphabet, len <= 3, spelled by the harness in each quote style and read by '
-             'the real token action; the same through the whole engine for every value of len <= 3 over a 9-character '
+    'quick': 'string values symbolic, unrestricted alphabet, len <= 4, spelled by the harness in each quote style and read by '
+             'the real token action; the same through the whole engine for every value of len <= 3 over a 7-character '
              'alphabet (enumerated by the solver); escapes: all \\xHH and octal forms, \\u/\\U/\\N/single-character forms '
              'from boundary tables chosen by symbolic selectors, unknown escapes with a symbolic character; numerals: digit '
              'strings len <= 3 (+ fraction len <= 2) over {0,1,5,9} and the 4299/4300-digit boundary; keywords: symbolic word '
              'len <= 3; z3 lemmas over unbounded length from the live token regexes',
-    'thorough': 'same with string values len <= 4, numerals len <= 4 + fraction <= 3, words len <= 4'}
+    'thorough': 'same with string values len <= 5 (engine: 4), numerals len <= 4 + fraction <= 2, words len <= 4'}
 OUTSIDE = ['strings longer than the bound except through the z3 lemmas L1/L2 (which speak about the token language, not the '
            'decoder)', 'astral code points are in the z3 alphabet only as "not in \\w/\\d"; E1 string model is trusted for them',
            'exponent notation (not part of the language)', 'integers beyond the int() digit limit (C03)']
@@ -451,7 +451,7 @@ def conditions(tier, seed):
                           'harness), both decoding styles; token action' % len(EMB)})
     out.append({'name': 'escape[unknown]', 'func': 'unknown_escape', 'timeout': t,
                 'bounds': 'backslash + symbolic character that introduces no escape, between symbolic neighbours'})
-    nlen, flen = (3, 2) if quick else (4, 3)
+    nlen, flen = (3, 2) if quick else (4, 2)
     out.append({'name': 'number', 'func': 'number', 'timeout': t, 'param': {'nlen': nlen, 'flen': flen},
                 'bounds': 'integer part len 1..%d, fraction len 0..%d over the digits %r (enumerated: int()/float() realise '
                           'their argument); token action and engine, also negated' % (nlen, flen, DIGITS)})
